@@ -133,9 +133,10 @@ def repeat_case(job):
 # ------------------------------------------------------------------------- (b)
 
 
-def _run_batch(rxns):
+def _run_batch(rxns, iso="inline"):
     def f():
-        b = pipeline.balancer()
+        # with pickled-argument isolation the Balancer is also told to use several workers
+        b = pipeline.balancer() if iso == "inline" else pipeline.balancer(n_jobs=2)
         b.confidence_threshold = 0
         stats = {}
         rows = b.rebalance(list(rxns), output_dict=True, stats=stats)
@@ -161,7 +162,7 @@ def schedule_subtree(job):
         if stats != want:
             bad.append({"key": ["schedule", "stats"], "what": "stats {} != {} ({})".format(stats, want, where), "dev": explore.dev_to_json(dev)})
 
-    n, cap = explore.subtree(_run_batch(rxns), root, ("order",), bound, on_exec=on_exec, isolation=iso)
+    n, cap = explore.subtree(_run_batch(rxns, iso), root, ("order",), bound, on_exec=on_exec, isolation=iso)
     return {"n": n, "bad": bad, "outcomes": sorted(outcomes), "points": n_points[0]}
 
 
@@ -169,7 +170,7 @@ def schedule_roots(job):
     """worker: default execution of a batch under an isolation mode -> first-level deviations
     (also asserts that the default schedule replays identically)"""
     rxns, iso = job["rxns"], job["iso"]
-    obs, ctl = explore.check_replay(_run_batch(rxns), {}, ("order",), canon=lambda o: json.dumps(o, sort_keys=True, default=str), isolation=iso)
+    obs, ctl = explore.check_replay(_run_batch(rxns, iso), {}, ("order",), canon=lambda o: json.dumps(o, sort_keys=True, default=str), isolation=iso)
     kids = explore.children(ctl, {}, 1, explore.default_cost)
     return {"roots": [explore.dev_to_json(d) for d in kids], "points": len(ctl.points),
             "parallel_calls": ctl.parallel_calls,
@@ -343,7 +344,7 @@ def replay(v):
     if v.sub == "schedule":
         dev = explore.dev_from_json(c["deviations"])
         canon = lambda o: json.dumps(o, sort_keys=True, default=str)  # noqa: E731
-        obs, ctl = explore.check_replay(_run_batch(c["rxns"]), dev, ("order",), canon=canon, isolation=c["iso"])
+        obs, ctl = explore.check_replay(_run_batch(c["rxns"], c["iso"]), dev, ("order",), canon=canon, isolation=c["iso"])
         rows, stats = obs
         out = []
         for k, w in compare_batch(c["rxns"], rows, "replay"):
